@@ -296,6 +296,13 @@ def row_counts():
                      st.integers(9, 40))
 
 
+# File names of path / file targets: with the usual suffix, with another one, with none at all (a
+# writer that "helpfully" appends .xye writes a file the caller did not name; seeded/C15-s11), with a
+# blank, with non-ASCII characters.
+FILE_NAMES = st.sampled_from(["out.xye", "out.xye", "out.dat", "out", "run_0042", "data.v2", "my file.txt",
+                              "spektrum_\u00e5.xye", ".hidden", "UPPER.XYE", "out.xye.bak"])
+
+
 @st.composite
 def roundtrip_cases(draw, adversarial=False):
     n = draw(st.integers(1, 3)) if adversarial else draw(row_counts())
@@ -308,6 +315,7 @@ def roundtrip_cases(draw, adversarial=False):
         "var": draw(full_col(n, nonneg_float())),
         "header": draw(headers(adversarial)),
         "target": draw(st.sampled_from(TARGETS)),
+        "fname": draw(FILE_NAMES),
         **lay,
     }
     case["load"] = draw(load_args(case["dim"]))
@@ -326,6 +334,7 @@ def large_cases(draw):
         "var": draw(palette_col(nonneg_float())),
         "header": draw(headers()),
         "target": draw(st.sampled_from(TARGETS)),
+        "fname": draw(FILE_NAMES),
         **lay,
     }
     case["load"] = draw(load_args(case["dim"]))
@@ -377,7 +386,7 @@ def save(case, da, kwargs, tmp):
         buf = io.StringIO()
         save_xye(buf, da, **kwargs)
         return buf.getvalue(), buf
-    path = os.path.join(tmp, "out.xye")
+    path = os.path.join(tmp, case.get("fname", "out.xye"))
     if t == "str":
         save_xye(path, da, **kwargs)
     elif t == "Path":
@@ -387,6 +396,9 @@ def save(case, da, kwargs, tmp):
             save_xye(f, da, **kwargs)
     else:
         raise HarnessError(f"unknown target {t}")
+    if os.listdir(tmp) != [os.path.basename(path)]:
+        raise Violation("wrong-file", f"save_xye({t} target {os.path.basename(path)!r}) left the files "
+                                      f"{sorted(os.listdir(tmp))} in an otherwise empty directory")
     with open(path, encoding="utf-8", newline="") as f:
         return f.read(), path
 
@@ -418,6 +430,9 @@ def written_header_lines(case) -> int:
 def classify(case, x, y, v):
     n = case["n"]
     labs = ["target:" + case["target"], "mode:" + case["mode"], f"ncoords:{len(case['coords'])}"]
+    if not case["target"].startswith("StringIO"):
+        fn = case.get("fname", "out.xye")
+        labs.append("fname:" + (".xye" if fn.endswith(".xye") else "no-suffix" if "." not in fn.lstrip(".") else "other-suffix"))
     if n <= 2:
         labs.append(f"rows:{n}")
     elif n <= 8:
